@@ -169,13 +169,13 @@ def run_replay_check(pid: str, tier: str, seed: int) -> int:
 
     shutil.rmtree(trace_dir, ignore_errors=True)
     os.makedirs(trace_dir)
+    kf = findings.load()
     results = pool.replay_all(behaviours, procs=14, trace_dir=trace_dir, extra_env=plan.get("env", {}))
     herr = [r for r in results if r.get("harness_error")]
     if herr:
         print(herr[0]["harness_error"])
         raise Machinery(f"{len(herr)} behaviours could not be replayed because the harness failed")
     # ---- 4. verdicts
-    kf = findings.load()
     known: Dict[str, int] = {}
     unknown: List[Tuple[Dict[str, Any], List[Dict[str, Any]]]] = []
     completed = other_prop = notfollowed = 0
@@ -191,7 +191,8 @@ def run_replay_check(pid: str, tier: str, seed: int) -> int:
             completed += 1
             continue
         mine = [v for v in r["viol"] if pid in v["props"]
-                or (plan.get("claims_actions") and v["a"] in plan["actions"])]
+                or (plan.get("claims_actions") and v["a"] in plan["actions"]
+                    and not any(findings.classify(p, v, kf) for p in v["props"]))]   # not a recorded finding of its owner
         if not mine:
             other_prop += 1
             if other_prop <= 3:
